@@ -40,3 +40,59 @@ def attribute(prop, result, failure):
 
 def attribute_disagreement(prop, result):
     return None
+
+
+def model_collisions(result) -> int:
+    """number of overwritten value-equal keys the model saw in copy lookups, up to the failing command."""
+    prog, model = result['prog'], result['model']
+    last = 0
+    for i, cmd in enumerate(prog):
+        if cmd[0] == 'collisions' and i < len(model):
+            try:
+                last = int(model[i])
+            except ValueError:
+                pass
+    return last
+
+
+@matcher('value_equal_keys_in_copy_lookup')
+def _r3(prop, result, failure, finding):
+    # any copy-related predicate failure, provided the model (which agrees) reports a key collision
+    if failure.get('probe') not in ('C05', 'C07', 'C03'):
+        return False
+    return model_collisions(result) > 0
+
+
+@matcher('cycle_after_unroll_then_flatten')
+def _r14(prop, result, failure, finding):
+    if failure.get('what') != 'listing or time query recurses without bound':
+        return False
+    prog = result['prog'][:failure['at'] + 1]
+    applied = set()
+    for cmd in prog:
+        if cmd[0] == 'apply':
+            applied.add(cmd[1])
+        if cmd[0] == 'flatten' and cmd[1] in applied:
+            return 'undef' in [x for x in result['model'] if x]
+    return False
+
+
+@matcher('index_order_vs_time_after_unroll')
+def _r15(prop, result, failure, finding):
+    if failure.get('what') != 'per-qubit indices do not increase with measurement start time':
+        return False
+    prog = result['prog'][:failure['at'] + 1]
+    reps = {}
+    nc = 0
+    for cmd in prog:
+        if cmd[0] in ('new', 'copy'):
+            reps[nc] = cmd[1] if cmd[0] == 'new' else 'f1'
+            nc += 1
+    return any(cmd[0] == 'apply' for cmd in prog) and any(r != 'f1' for r in reps.values())
+
+
+@matcher('group_link_listed_before_reference')
+def _r23(prop, result, failure, finding):
+    return (failure.get('what') == 'operation listed before the operation its relation refers to'
+            and bool(failure.get('group_link'))
+            and any(c[0] == 'apply' for c in result['prog'][:failure['at'] + 1]))
